@@ -218,6 +218,25 @@ fn list_specs(n: usize) -> Vec<Spec> {
     v
 }
 
+/// Three-pattern lists with a repeated member: [a, a, b] and [a, b, b] for every ordered pair of
+/// distinct patterns (a repeated pattern must not disturb which list member supplies the captures).
+fn list3_specs(n: usize) -> Vec<Spec> {
+    let ps = gen::pats(n, "p");
+    let mut v = Vec::new();
+    for (i, a) in ps.iter().enumerate() {
+        for (j, b) in ps.iter().enumerate() {
+            if i == j {
+                continue;
+            }
+            for prefix in [false, true] {
+                v.push(Spec::list(vec![a.clone(), a.clone(), b.clone()], prefix));
+                v.push(Spec::list(vec![a.clone(), b.clone(), b.clone()], prefix));
+            }
+        }
+    }
+    v
+}
+
 fn phase_match(r: &Runner, name: &'static str, specs: &[Spec], paths: &[String]) {
     r.run(name, specs.len(), |u, loc| {
         let spec = &specs[u];
@@ -579,6 +598,8 @@ fn main() {
     phase_match(&r, "match-list1", &lists1, &paths);
     let lists2 = list_specs(2);
     phase_match(&r, "match-list2", &lists2, &short_paths);
+    let lists3 = list3_specs(1);
+    phase_match(&r, "match-list3", &lists3, if thorough { &nested_paths } else { &paths });
     // 3. nested: a prefix resource (1 element / edge case / list) then an inner resource on the same Path
     let mut outer: Vec<Spec> = single_specs(1, "p").into_iter().filter(|s| s.prefix).collect();
     outer.extend(lists1.iter().filter(|s| s.prefix).step_by(7).cloned());
@@ -615,7 +636,7 @@ fn main() {
         .set("distinct_nontrivial", total.shapes.len() as u64)
         .set(
             "rule",
-            "Full cartesian products, no sampling: (1) every pattern made of ≤3 elements from {/a, /ab, /{x}, /a{x}, /{x}-{y}, /{x:[ab]+}, /{x:\\d+}, /{t:.*}, /{t}*} (tail last; params renamed p0..) plus edge patterns {\"\", /, /a/, //, /{p0}/, /a/{p0}/}, as full and as prefix resource, × ALL paths over {/,a,b,1,-} up to the length bound; (2) all ordered two-pattern lists; (3) nested prefix→inner matching on one Path; (4) resource_path_from_iter/_from_map over value menus; (5) Path::load over percent-escape menus; (6) Quoter/Url over ALL byte strings up to the bound over {%,2,5,F,f,a,/,+,0x80,B} × 5 protected sets plus every %XY pair of hex digits and their ASCII neighbours; (7) long paths at 8/15/16-bit offset limits. Each case compares is_match, find_match, capture_match_info (+_fn) and Path accessors with an independent backtracking reference matcher / reference decoder. distinct_nontrivial = number of distinct (resource definition, matched length, tuple of capture lengths) classes among cases where the real matcher and the reference both matched and ≥1 parameter was captured (for load: resource + decoded lengths); counted with a hash set.",
+            "Full cartesian products, no sampling: (1) every pattern made of ≤3 elements from {/a, /ab, /{x}, /a{x}, /{x}-{y}, /{x:[ab]+}, /{x:\\d+}, /{t:.*}, /{t}*} (tail last; params renamed p0..) plus edge patterns {\"\", /, /a/, //, /{p0}/, /a/{p0}/, /{p0}-a, /-{p0}-, /{p0}.1, /a.b, /a-b}, as full and as prefix resource, × ALL paths over {/,a,b,1,-} up to the length bound; (2) all ordered two-pattern lists, and three-pattern lists with a repeated member [a,a,b], [a,b,b]; (3) nested prefix→inner matching on one Path; (4) resource_path_from_iter/_from_map over value menus; (5) Path::load over percent-escape menus; (6) Quoter/Url over ALL byte strings up to the bound over {%,2,5,F,f,a,/,+,0x80,B} × 5 protected sets plus every %XY pair of hex digits and their ASCII neighbours; (7) long paths at 8/15/16-bit offset limits. Each case compares is_match, find_match, capture_match_info (+_fn) and Path accessors with an independent backtracking reference matcher / reference decoder. distinct_nontrivial = number of distinct (resource definition, matched length, tuple of capture lengths) classes among cases where the real matcher and the reference both matched and ≥1 parameter was captured (for load: resource + decoded lengths); counted with a hash set.",
         )
         .set("samples", Value::Array(total.samples.iter().map(|s| s.1.clone()).collect()))
         .set("exhaustive", !capped)
@@ -628,7 +649,7 @@ fn main() {
         .set("decoder_length_bound", dec_len)
         .set("paths_enumerated", paths.len() as u64)
         .set("resources_single", singles.len() as u64)
-        .set("resources_list", (lists1.len() + lists2.len()) as u64)
+        .set("resources_list", (lists1.len() + lists2.len() + lists3.len()) as u64)
         .set("matches", total.matched)
         .set("matches_with_captures", total.matched_with_caps)
         .set("list_choice_not_first_pattern", total.list_nonfirst)
